@@ -22,15 +22,56 @@ class Unsupported(AnalysisBroken):
 
 
 class SymVal:
-    """A symbolic integer input: representative value + origin.
-    form: ('id',) | ('neg',) | ('abs',)  applied to the base symbol."""
-    __slots__ = ("v", "sym", "form", "log", "group")
+    """A symbolic integer input x with a representative value.  The value denoted is
+           b + (|s*x + a|  if ab else  s*x + a)          with s in {+1,-1}
+    so sign flips, shifts by concrete integers and one abs() keep the value a simple function of x whose
+    comparisons against constants have known critical points (crit())."""
+    __slots__ = ("v", "sym", "log", "group", "s", "a", "ab", "b")
 
-    def __init__(self, v, sym, log, form="id", group=None):
-        self.v, self.sym, self.form, self.log, self.group = v, sym, form, log, group
+    def __init__(self, v, sym, log, form="id", group=None, off=0, s=None, a=0, ab=False, b=0):
+        self.v, self.sym, self.log, self.group = v, sym, log, group
+        if s is None:
+            s = -1 if form == "neg" else 1
+            ab = (form == "abs")
+            b = off
+        self.s, self.a, self.ab, self.b = s, a, ab, b
+
+    @property
+    def form(self):
+        return "abs" if self.ab else ("id" if self.s == 1 else "neg")
+
+    @property
+    def off(self):
+        return self.a + self.b
+
+    @property
+    def plain(self):
+        return not self.ab and self.a == 0 and self.b == 0
+
+    def crit(self, c):
+        """Constants k such that (value op c) can only change truth value where x crosses k."""
+        if not self.ab:
+            return [self.s * (c - self.a - self.b)]
+        k = c - self.b
+        return [self.s * (k - self.a), self.s * (-k - self.a)]
+
+    def shifted(self, c):
+        return SymVal(self.v + c, self.sym, self.log, group=self.group, s=self.s, a=self.a, ab=self.ab, b=self.b + c)
+
+    def negated(self):
+        if self.ab:
+            raise Unsupported("negation of an absolute value")
+        return SymVal(-self.v, self.sym, self.log, group=self.group, s=-self.s, a=-(self.a + self.b), ab=False, b=0)
+
+    def absolute(self):
+        if self.ab:
+            if self.b == 0:
+                return self
+            raise Unsupported("abs of a shifted absolute value")
+        return SymVal(abs(self.v), self.sym, self.log, group=self.group, s=self.s, a=self.a + self.b, ab=True, b=0)
 
     def __repr__(self):
-        return "Sym(%s=%r)" % (self.sym if self.form == "id" else "%s(%s)" % (self.form, self.sym), self.v)
+        return "Sym(%s:%s=%r)" % (self.sym, self.form, self.v)
 
 
 class Obj:
@@ -107,9 +148,18 @@ class Interp:
     # -- comparison logging ---------------------------------------------------
     def _cmp(self, op, a, b, node):
         sa, sb = isinstance(a, SymVal), isinstance(b, SymVal)
-        if sa or sb:
-            self.log.append((op, (a.sym, a.form, a.group) if sa else ("const", _raw(a)),
-                             (b.sym, b.form, b.group) if sb else ("const", _raw(b)), node.get("line")))
+        if sa and sb:
+            if not (a.plain and b.plain) and not (a.group == "tri" and b.group == "tri"):
+                raise Unsupported("comparison of two transformed symbolic values at line %s" % node.get("line"))
+            self.log.append((op, ("sym", a.sym, a.group, None, a.form), ("sym", b.sym, b.group, None, b.form), node.get("line")))
+        elif sa or sb:
+            sv, cv = (a, b) if sa else (b, a)
+            c = _raw(cv)
+            if isinstance(c, bool):
+                c = int(c)
+            if c is None or not isinstance(c, (int, float)):
+                raise Unsupported("symbolic value compared with a non-number at line %s" % node.get("line"))
+            self.log.append((op, ("sym", sv.sym, sv.group, sv.crit(c), sv.form), ("const", c), node.get("line")))
         x, y = _raw(a), _raw(b)
         if isinstance(x, Obj) or isinstance(y, Obj):
             raise Unsupported("comparison of aggregates at line %s" % node.get("line"))
@@ -177,11 +227,7 @@ class Interp:
             v = self.ev(ks[0])
             if op == "-":
                 if isinstance(v, SymVal):
-                    if v.form == "id":
-                        return SymVal(-v.v, v.sym, v.log, "neg", v.group)
-                    if v.form == "neg":
-                        return SymVal(-v.v, v.sym, v.log, "id", v.group)
-                    raise Unsupported("negation of %r" % v)
+                    return self.ev_neg(v)
                 return -v
             if op == "!":
                 if isinstance(v, SymVal):
@@ -299,6 +345,16 @@ class Interp:
         return v
 
     def _arith(self, op, a, b, node):
+        if op in ("+", "-") and (isinstance(a, SymVal) != isinstance(b, SymVal)):
+            # shifting a symbolic value by a concrete integer keeps its comparisons analysable
+            s_, c_ = (a, b) if isinstance(a, SymVal) else (b, a)
+            if isinstance(c_, (int, bool)):
+                c_ = int(c_)
+                if op == "+":
+                    return s_.shifted(c_)
+                if isinstance(a, SymVal):
+                    return s_.shifted(-c_)
+                return s_.negated().shifted(c_)          # c - sym
         if isinstance(a, SymVal) or isinstance(b, SymVal):
             # only sign flips are allowed on symbolic values: sym * (+-1), (+-1) * sym
             if op == "*":
@@ -306,10 +362,10 @@ class Interp:
                     if isinstance(s, SymVal) and not isinstance(c, SymVal) and c in (1, -1):
                         if c == 1:
                             return s
-                        return self.ev_neg(s)
+                        return s.negated()
                 # product of two symbols from {-1,0,1}-valued domains is allowed when both are 'tri' groups
                 if isinstance(a, SymVal) and isinstance(b, SymVal) and a.group == "tri" and b.group == "tri":
-                    return SymVal(a.v * b.v, "%s*%s" % (a.sym, b.sym), a.log, "id", "tri")
+                    return SymVal(a.v * b.v, "%s*%s" % (a.sym, b.sym), a.log, group="tri")
             raise Unsupported("arithmetic %s on symbolic value at line %s" % (op, node.get("line")))
         if op == "+":
             return a + b
@@ -339,11 +395,7 @@ class Interp:
         raise Unsupported("operator %s" % op)
 
     def ev_neg(self, s):
-        if s.form == "id":
-            return SymVal(-s.v, s.sym, s.log, "neg", s.group)
-        if s.form == "neg":
-            return SymVal(-s.v, s.sym, s.log, "id", s.group)
-        raise Unsupported("negation of %r" % s)
+        return s.negated()
 
     def _assign(self, lhs, v):
         l = strip(lhs)
@@ -365,9 +417,7 @@ class Interp:
         if name in ("abs", "fabs", "llabs", "labs"):
             v = self.ev(args_nodes[0])
             if isinstance(v, SymVal):
-                if v.form in ("id", "neg"):
-                    return SymVal(abs(v.v), v.sym, v.log, "abs", v.group)
-                return v
+                return v.absolute()
             return abs(v)
         if name == "operator bool" and e.get("kind") == "CXXMemberCallExpr":
             mbase = db.member_base(e)
